@@ -174,7 +174,9 @@ Definition st_insert (linked : bool) (x : N) (a : anchor) (s : st) : res st :=
           match l with
           | [] => Ok ([x], Some x)                  (* not reachable with f = Some _ *)
           | h :: _ =>
-              if linked && (h =? x) then Err 1      (* lyd_insert_before(): sibling == node *)
+              if linked && (h =? x) then Ok (l, Some fv)   (* anchor == new_node: already the first instance, nothing
+                                                              to do (/repo commit a481aab; was lyd_insert_before():
+                                                              sibling == node, LY_EINVAL) *)
               else Ok (x :: (if linked then remove1 x l else l), Some x)
           end
       end
